@@ -177,8 +177,9 @@ class ArrayLookup(Assignable):
 
     @property
     def const(self):
+        # Strings are immutable, their bytes cannot be assigned to
         if self.source.type == DataType.STRING:
-            return False
+            return True
         return self.source.type.const
 
     def evaluate(self, env):
